@@ -100,10 +100,28 @@ pub fn build(id: &str, tier: &str, seed: u64, threads: usize) -> Option<Plan> {
                     }
                 }
             }
+            // larger files with block sizes that do not divide the usual I/O buffer sizes (4 KiB, 8 KiB, 64 KiB):
+            // a short read / buffer boundary inside the file must not end or corrupt the transfer
+            for bsz in [9usize, 100, 1000, 1428, 1468] {
+                for w in [1u16, 4] {
+                    for len in [4095u64, 4097, 8191, 8192, 8193, 16389, 20000, 65537, 70001, 131073] {
+                        if (len / bsz as u64) > 9000 || (q && len > 70001) {
+                            continue;
+                        }
+                        cfgs.push(Cfg { role: Role::Send, b: bsz, w, len, hs: w == 4, every: 0 });
+                    }
+                }
+            }
             let bases = make_bases(&cfgs, seed, threads);
             for (b, o) in &bases {
                 cases.push(b.spec.clone());
                 let _ = o;
+                if b.spec.nblocks() > 40 {
+                    // long transfers: fault-free, every ack pattern, a few random fault plans
+                    fam_ack_patterns(b, &mut cases);
+                    fam_random(b, &mut rng, 3, 4, &mut cases);
+                    continue;
+                }
                 fam_single(b, false, 2, &mut cases);
                 fam_ack_patterns(b, &mut cases);
                 if b.spec.w <= 8 || b.spec.nblocks() <= 4 {
@@ -126,9 +144,23 @@ pub fn build(id: &str, tier: &str, seed: u64, threads: usize) -> Option<Plan> {
         "C02" => {
             let mut cfgs = grid(&[Role::Recv], &[8, 9, 512], if q { &[1, 2, 3, 4] } else { &[1, 2, 3, 4, 5, 8, 16] }, !q, false, 1 << 20);
             cfgs.extend(grid(&[Role::Recv], &[1428, 65464], &[1, 2], false, false, if q { 200_000 } else { 600_000 }));
+            for bsz in [9usize, 100, 1000, 1428, 1468] {
+                for w in [1u16, 4] {
+                    for len in [4097u64, 8191, 8192, 8193, 16389, 20000, 65537, 70001] {
+                        if (len / bsz as u64) > 9000 {
+                            continue;
+                        }
+                        cfgs.push(Cfg { role: Role::Recv, b: bsz, w, len, hs: false, every: 0 });
+                    }
+                }
+            }
             let bases = make_bases(&cfgs, seed, threads);
             for (b, _) in &bases {
                 cases.push(b.spec.clone());
+                if b.spec.nblocks() > 40 {
+                    fam_random(b, &mut rng, 3, 4, &mut cases);
+                    continue;
+                }
                 fam_single(b, false, 2, &mut cases);
                 fam_strays(b, &mut cases);
                 fam_random(b, &mut rng, if q { 4 } else { 40 }, 6, &mut cases);
@@ -482,4 +514,42 @@ pub fn c13_history(seed: u64) -> Vec<crate::util::Json> {
     }
     let _ = std::fs::remove_dir_all(&dir);
     results
+}
+
+/// A handful of simulated transfers of both roles with faults, small enough for Miri
+/// (threads, channels, file I/O and the virtual clock hook are interpreted; UB, data races and leaks are reported by Miri).
+pub fn miri_slice(id: &str, seed: u64) -> crate::util::Json {
+    use crate::util::Json;
+    tftpd::verif::enable_virtual_time();
+    let mut cases = Vec::new();
+    for role in [Role::Send, Role::Recv] {
+        for (w, len) in [(1u16, 9u64), (2, 16), (3, 40)] {
+            let base = base_spec(&Cfg { role, b: 8, w, len, hs: role == Role::Send && w == 2, every: 0 }, seed);
+            cases.push(base.clone());
+            for (dir, idx, act) in [(Dir::W2P, 1usize, Act::Drop), (Dir::P2W, 1, Act::Drop), (Dir::W2P, 2, Act::Dup), (Dir::P2W, 0, Act::Delay(crate::cases::T + 1))] {
+                let mut s = base.clone();
+                s.label = format!("miri:{:?}:w{}:{:?}#{}:{:?}", role, w, dir, idx, act);
+                s.rules.push(Rule::Idx { dir, idx, act });
+                cases.push(s);
+            }
+            let mut s = base.clone();
+            s.peer.error_at = Some(1);
+            cases.push(s);
+        }
+    }
+    let n = cases.len();
+    let judge: Arc<Judge> = Arc::new(|_s: &CaseSpec, _o: &Outcome, an: &Analysis| Judged {
+        findings: an.findings.iter().filter(|f| f.rule != "CLEANUP").cloned().collect(),
+        out_of_premise: false,
+        inconclusive: None,
+    });
+    let rep = crate::runner::execute(Arc::new(cases), 1, judge, None, (0, 1));
+    Json::obj()
+        .set("engine", Json::s("miri-sim"))
+        .set("property", Json::s(id))
+        .set("evaluations", Json::i(rep.evaluations as i64))
+        .set("cases", Json::u(n))
+        .set("events_observed", Json::i(rep.events as i64))
+        .set("violation_count", Json::i(rep.violation_count as i64))
+        .set("violations", Json::Arr(rep.violations.iter().map(|v| Json::s(&format!("{} {}: {}", v.spec.label, v.finding.rule, v.finding.detail))).collect()))
 }
